@@ -415,6 +415,19 @@ theorem histInv_step (st : Store × List (List Utxo)) (e : Ev) (evs : List Ev)
       refine List.Perm.append_left _ ?_
       rw [← List.append_assoc]
       exact List.Perm.append_right _ hp
+  | finalize inputs new =>
+    simp only [deposits] at h
+    cases hr : removeInputs st.1.stxos inputs with
+    | some stxos' =>
+      simp only [stepEv, hr]
+      unfold HistInv at h ⊢
+      simpa [List.append_assoc] using h
+    | none =>
+      simp only [stepEv, hr]
+      unfold HistInv at h ⊢
+      refine h.sublist (List.Sublist.map _ ?_)
+      simp only [List.append_assoc]
+      exact List.Sublist.append_left (List.Sublist.append_left (List.sublist_append_right _ _) _) _
 
 theorem histInv_run (evs : List Ev) (st : Store × List (List Utxo)) (h : HistInv st (deposits evs)) :
     HistInv (evs.foldl stepEv st) [] := by
@@ -754,5 +767,47 @@ theorem chooseUtxos_no_panic (T : Tests) (P : Params) (s : Store) (tries : Int)
         sdesc_sublist _ _ hR hU (fun x hx => hm x ((sortDesc_perm a0.sel).mem_iff.mp hx))
       obtain ⟨rest, hr⟩ := removeWalk_some (sortDesc s.utxos) 0 (sortDesc a0.sel) hk1 (by simpa using hsub)
       rw [hr]; simp
+
+/-- getStxoAmts deletes, for every input, one spent-record entry with that input's outpoint. -/
+theorem removeInputs_spec (stxos inputs rest : List Utxo) (h : removeInputs stxos inputs = some rest) :
+    ∃ removed : List Utxo, stxos.Perm (removed ++ rest) ∧
+      removed.map (fun u => (u.hash, u.index)) = inputs.map (fun u => (u.hash, u.index)) := by
+  induction inputs generalizing stxos with
+  | nil => simp [removeInputs] at h; subst h; exact ⟨[], by simp, rfl⟩
+  | cons i r ih =>
+    unfold removeInputs at h
+    split at h
+    · simp at h
+    · rename_i k hk
+      obtain ⟨hlt, hx, _⟩ := List.findIdx?_eq_some_iff_getElem.mp hk
+      simp only [Bool.and_eq_true, beq_iff_eq] at hx
+      obtain ⟨removed, hp, hm⟩ := ih _ h
+      refine ⟨stxos[k] :: removed, ?_, ?_⟩
+      · have := eraseIdx_perm stxos k stxos[k] (List.getElem?_eq_getElem hlt)
+        exact this.trans (List.Perm.cons _ hp)
+      · simp only [List.map_cons, hm, hx.1, hx.2]
+
+/-- The last signature: the outputs paying the multisig become unspent (appended), the transaction's inputs leave the
+    spent record; every earlier signature leaves both records untouched (`pending` carries no store). -/
+theorem multiSign_final_spec (required : Nat) (s s' : Store) (p p' : Pending) (signer : Nat) (sigOK : Bool)
+    (mk : Nat → Nat → Utxo) (h : multiSign required s p signer sigOK mk = .final p' s') :
+    sigOK = true ∧ signer ∉ p.signers ∧ p'.signers = p.signers ++ [signer] ∧ p'.signers.length = required ∧
+      s'.utxos = s.utxos ++ newUtxos mk p.outs ∧
+      ∃ removed : List Utxo, s.stxos.Perm (removed ++ s'.stxos) ∧
+        removed.map (fun u => (u.hash, u.index)) = p.inputs.map (fun u => (u.hash, u.index)) := by
+  unfold multiSign at h
+  split at h; · simp at h
+  rename_i hs
+  split at h; · simp at h
+  split at h; · simp at h
+  rename_i stxos' hr
+  split at h; · simp at h
+  rename_i hok
+  simp only at h
+  split at h; · simp at h
+  rename_i hlen
+  simp only [SignRes.final.injEq] at h
+  obtain ⟨rfl, rfl⟩ := h
+  refine ⟨by simpa using hok, by simpa using hs, rfl, by simpa using hlen, rfl, removeInputs_spec _ _ _ hr⟩
 
 end Poly.Proofs.Btc
